@@ -5,6 +5,7 @@ of the operations to the status automaton (`Proofs/StatusOps.lean`) and of facts
 *generated* state-machine functions, closed by kernel evaluation over their whole domain.
 -/
 import OrqModel.Proofs.StatusOps
+import OrqModel.Proofs.StepRes
 import OrqModel.Model.Ops
 
 namespace Orq
@@ -41,13 +42,21 @@ theorem runOps_closed (E : Evaluator) {S : Status → Prop}
 
 def cancelFamily : Status → Bool := fun s => s == .canceling || s == .canceled || s == .failed
 
-theorem tbl_cancel_closed_task : ∀ (s ev : Status) (rem act : Bool) (oc : Outcome) (s' : Status),
-    cancelFamily s = true → wfOnTaskEvent s ev rem act oc = .ok s' → cancelFamily s' = true := by
+theorem tbl_cancel_closed_task_k : ∀ (s ev : Status) (rem act : Bool) (oc : Outcome),
+    cancelFamily s = true → (wfOnTaskEvent s ev rem act oc).all? cancelFamily = true := by
   decide +kernel
 
-theorem tbl_cancel_closed_wf : ∀ (s req : Status) (a st p : Bool) (s' : Status),
-    cancelFamily s = true → wfOnWorkflowEvent s req a st p = .ok s' → cancelFamily s' = true := by
+theorem tbl_cancel_closed_task (s ev : Status) (rem act : Bool) (oc : Outcome) (s' : Status)
+    (hs : cancelFamily s = true) (h : wfOnTaskEvent s ev rem act oc = .ok s') : cancelFamily s' = true :=
+  StepRes.all?_ok (tbl_cancel_closed_task_k s ev rem act oc hs) h
+
+theorem tbl_cancel_closed_wf_k : ∀ (s req : Status) (a st p : Bool),
+    cancelFamily s = true → (wfOnWorkflowEvent s req a st p).all? cancelFamily = true := by
   decide +kernel
+
+theorem tbl_cancel_closed_wf (s req : Status) (a st p : Bool) (s' : Status)
+    (hs : cancelFamily s = true) (h : wfOnWorkflowEvent s req a st p = .ok s') : cancelFamily s' = true :=
+  StepRes.all?_ok (tbl_cancel_closed_wf_k s req a st p hs) h
 
 theorem cancel_move_closed : ∀ a b, cancelFamily a = true → WfMove anyReq a b → cancelFamily b = true := by
   intro a b ha m
@@ -184,19 +193,43 @@ theorem tbl_paused_doors : ∀ (ev : Status) (rem act : Bool) (oc : Outcome) (s'
 
 /-- **C02/C09**: every entry into `paused` or `canceled` by a task event happens with no active
     task (`has_active_tasks` false at that moment) -/
-theorem tbl_dormant_doors_task : ∀ (s ev : Status) (rem act : Bool) (oc : Outcome) (s' : Status),
-    wfOnTaskEvent s ev rem act oc = .ok s' → s' ≠ s → (s' = .paused ∨ s' = .canceled) → act = false := by
+theorem tbl_dormant_doors_task_k : ∀ (s ev : Status) (rem act : Bool) (oc : Outcome),
+    (wfOnTaskEvent s ev rem act oc).all?
+      (fun s' => !(s' != s && (s' == .paused || s' == .canceled)) || !act) = true := by
   decide +kernel
 
-theorem tbl_dormant_doors_wf : ∀ (s req : Status) (a st p : Bool) (s' : Status),
-    wfOnWorkflowEvent s req a st p = .ok s' → s' ≠ s → (s' = .paused ∨ s' = .canceled) → a = false := by
+theorem tbl_dormant_doors_task (s ev : Status) (rem act : Bool) (oc : Outcome) (s' : Status)
+    (h : wfOnTaskEvent s ev rem act oc = .ok s') (hne : s' ≠ s) (hs : s' = .paused ∨ s' = .canceled) :
+    act = false := by
+  have := StepRes.all?_ok (tbl_dormant_doors_task_k s ev rem act oc) h
+  revert this hne
+  rcases hs with hs | hs <;> subst hs <;> cases s <;> cases act <;> decide
+
+theorem tbl_dormant_doors_wf_k : ∀ (s req : Status) (a st p : Bool),
+    (wfOnWorkflowEvent s req a st p).all?
+      (fun s' => !(s' != s && (s' == .paused || s' == .canceled)) || !a) = true := by
   decide +kernel
+
+theorem tbl_dormant_doors_wf (s req : Status) (a st p : Bool) (s' : Status)
+    (h : wfOnWorkflowEvent s req a st p = .ok s') (hne : s' ≠ s) (hs : s' = .paused ∨ s' = .canceled) :
+    a = false := by
+  have := StepRes.all?_ok (tbl_dormant_doors_wf_k s req a st p) h
+  revert this hne
+  rcases hs with hs | hs <;> subst hs <;> cases s <;> cases a <;> decide
 
 /-- every entry into `pausing` or `canceling` by a task event or request happens with an active
     task, except the explicit task-level `canceling` report -/
-theorem tbl_active_doors_wf : ∀ (s req : Status) (a st p : Bool) (s' : Status),
-    wfOnWorkflowEvent s req a st p = .ok s' → s' ≠ s → (s' = .pausing ∨ s' = .canceling) → a = true := by
+theorem tbl_active_doors_wf_k : ∀ (s req : Status) (a st p : Bool),
+    (wfOnWorkflowEvent s req a st p).all?
+      (fun s' => !(s' != s && (s' == .pausing || s' == .canceling)) || a) = true := by
   decide +kernel
+
+theorem tbl_active_doors_wf (s req : Status) (a st p : Bool) (s' : Status)
+    (h : wfOnWorkflowEvent s req a st p = .ok s') (hne : s' ≠ s) (hs : s' = .pausing ∨ s' = .canceling) :
+    a = true := by
+  have := StepRes.all?_ok (tbl_active_doors_wf_k s req a st p) h
+  revert this hne
+  rcases hs with hs | hs <;> subst hs <;> cases s <;> cases a <;> decide
 
 /-- **C02/C03**: the only doors into `succeeded` are a task success/remediation with no active
     task and the `completed` outcome (nothing staged, no next task), the resume of a paused
@@ -224,10 +257,23 @@ theorem tbl_failed_request_total : ∀ (s : Status) (a st p : Bool),
 
 /-- every status a task can reach through the task state machine has a `task_<status>` event, so
     reporting it to the workflow machine cannot raise `InvalidEvent` -/
-theorem tbl_task_targets_have_events : ∀ (tk ev : Status) (s' : Status),
-    tkOnActionEvent tk ev = .ok s' → s' ≠ .unset → hasTaskEvent s' = true := by decide +kernel
+theorem tbl_task_targets_have_events_k : ∀ (tk ev : Status),
+    (tkOnActionEvent tk ev).all? (fun s' => s' == .unset || hasTaskEvent s') = true := by decide +kernel
 
-theorem tbl_item_targets_have_events : ∀ (tk ev : Status) (a p c f i : Bool) (s' : Status),
-    tkOnItemEvent tk ev a p c f i = .ok s' → s' ≠ .unset → hasTaskEvent s' = true := by decide +kernel
+theorem tbl_task_targets_have_events (tk ev s' : Status)
+    (h : tkOnActionEvent tk ev = .ok s') (hne : s' ≠ .unset) : hasTaskEvent s' = true := by
+  have := StepRes.all?_ok (tbl_task_targets_have_events_k tk ev) h
+  revert this hne
+  cases s' <;> decide
+
+theorem tbl_item_targets_have_events_k : ∀ (tk ev : Status) (a p c f i : Bool),
+    (tkOnItemEvent tk ev a p c f i).all? (fun s' => s' == .unset || hasTaskEvent s') = true := by
+  decide +kernel
+
+theorem tbl_item_targets_have_events (tk ev : Status) (a p c f i : Bool) (s' : Status)
+    (h : tkOnItemEvent tk ev a p c f i = .ok s') (hne : s' ≠ .unset) : hasTaskEvent s' = true := by
+  have := StepRes.all?_ok (tbl_item_targets_have_events_k tk ev a p c f i) h
+  revert this hne
+  cases s' <;> decide
 
 end Orq
